@@ -52,6 +52,11 @@ def rng_for(seed: int, prop: str, k: int, stream: str = "gen") -> random.Random:
     return random.Random(int.from_bytes(h[:8], "big"))
 
 
+def stable_hash(obj) -> str:
+    """Digest that does not depend on PYTHONHASHSEED."""
+    return hashlib.sha256(repr(obj).encode("utf-8", "backslashreplace")).hexdigest()[:16]
+
+
 class Result:
     """What one run of one scenario produced."""
 
@@ -422,6 +427,8 @@ def main(argv=None) -> int:
         a = argv.pop(0)
         if a.startswith("--"):
             opts[a[2:]] = argv.pop(0) if argv and not argv[0].startswith("--") else "1"
+        else:
+            opts["_pos"] = a
     seed = int(os.environ.get("VERIF_SEED", "1") or 1)
     tier = opts.get("tier") or os.environ.get("VERIF_TIER") or "quick"
     if tier not in ("quick", "thorough"):
@@ -431,6 +438,12 @@ def main(argv=None) -> int:
             from . import selftest
 
             return selftest.main(opts)
+        if cmd == "digests":
+            from . import selftest
+
+            pid = None
+            # usage: digests <Cnn> --n N --seed S
+            return selftest.digests(opts.get("_pos", "C01"), int(opts.get("n", 100)), int(opts.get("seed", seed)))
         if "replay" in opts:
             return replay_file(opts["replay"])
         return run_check(cmd.upper(), tier, seed, n_override=int(opts["n"]) if "n" in opts else None, workers=int(opts["workers"]) if "workers" in opts else None, budget=float(opts["budget"]) if "budget" in opts else None)
